@@ -4,7 +4,7 @@ import BbRe.Drivers.Util
 Driver for `Model/Fair.lean`.  One request per line:
 
   pick <now> L <n> <limit>* S <n> <start>* K <n> <key>* T <tree>
-      -> wf=<0|1> multi=<0|1> code=<op>/<retained>|- legacy=<op>/<retained>|- spec=<op>/<retained>,..
+      -> wf=<0|1> cache=<0|1> multi=<0|1> code=<op>/<retained>|- legacy=<op>/<retained>|- spec=<op>/<retained>,..
          code   = pickFromQueue (the code's walk over the heap roots)
          legacy = the same walk with the window of the code before fix 5bea868 (level-0 starting time)
          spec   = specPick, the documented admissible set (full scan, per-level windows)
@@ -82,7 +82,7 @@ def pickReq : P String := do
   let code := pickFromQueue t w
   let legacy := pickFromQueue t w true
   let multi := multiAlong w.docWindow limits.length t.depth t keys 0
-  pure s!"wf={b01 t.wf} multi={b01 multi} code={showPick code} legacy={showPick legacy} spec={showSet (specPick t w)}"
+  pure s!"wf={b01 t.wf} cache={b01 t.cacheOk} multi={b01 multi} code={showPick code} legacy={showPick legacy} spec={showSet (specPick t w)}"
 
 def handoffReq : P String := do
   lit "I"; let invs ← counted (counted nat)
